@@ -19,7 +19,14 @@ Inductive case :=
 | BatF (cap tg : N) (ps : list prop) (fl : list N) (impl : option (list (list N * N)))
 (* the same + the real Execute as for Hsh: did it return an error, what was handed to ProposalsHash *)
 | HshF (cap tg : N) (ps : list prop) (fl : list N) (impl : option (list (list N * N)))
-       (impl_err : bool) (impl_hashed : list (list N)).
+       (impl_err : bool) (impl_hashed : list (list N))
+(* several deliveries on ONE Executor object, in order: per delivery what HshF holds (proposalBatches, then the
+   real Execute, both on that one Executor) and whether the caller's slice was found reordered afterwards.
+   Proposals and members are named [pk source nonce]; [pexec] = the chain's answer at that delivery. *)
+| Hst (cap tg : N) (ds : list hdel)
+with hdel :=
+| mkhdel (ps : list prop) (fl : list N) (impl : option (list (list N * N)))
+         (impl_err : bool) (impl_hashed : list (list N)) (reordered : bool).
 
 Fixpoint obs_eqb (a b : list (list N * N)) : bool :=
   match a, b with
@@ -49,8 +56,22 @@ Definition opt_obs_eqb (a b : option (list (list N * N))) : bool :=
   | _, _ => false
   end.
 
+Definition h_delivery (d : hdel) : delivery := match d with mkhdel ps fl _ _ _ _ => (ps, fl) end.
+Definition h_impl (d : hdel) : option (list (list N * N)) := match d with mkhdel _ _ r _ _ _ => r end.
+
+Definition agree_del (cap tg : N) (d : hdel) : bool :=
+  match d with
+  | mkhdel ps fl r err hs reordered =>
+      opt_obs_eqb (option_map (map obs_of) (batches_r cap tg ps fl)) r
+      && hashed_eqb (hashed_model cap tg ps fl) hs
+      && Bool.eqb err (lookup_err ps fl || negb (is_nil (hashed_model cap tg ps fl)))
+      (* the code builds its batches from the caller's slice without touching it *)
+      && negb reordered
+  end.
+
 Definition agree (c : case) : bool :=
   match c with
+  | Hst cap tg ds => forallb (agree_del cap tg) ds
   | BatF cap tg ps fl r => opt_obs_eqb (option_map (map obs_of) (batches_r cap tg ps fl)) r
   | HshF cap tg ps fl r err hs =>
       opt_obs_eqb (option_map (map obs_of) (batches_r cap tg ps fl)) r
@@ -68,6 +89,9 @@ Definition agree (c : case) : bool :=
 
 Definition judge (c : case) : bool :=
   match c with
+  | Hst cap tg ds =>
+      history_ok cap tg (map h_delivery ds) (map h_impl ds)
+      && forallb (fun d => match d with mkhdel ps fl _ err hs _ => hashed_ok_r ps fl err hs end) ds
   | BatF cap tg ps fl r => spec_ok_r cap tg ps fl r
   | HshF cap tg ps fl r err hs => spec_ok_r cap tg ps fl r && hashed_ok_r ps fl err hs
   | Bat cap tg ps obs => spec_ok cap tg ps obs
@@ -90,6 +114,10 @@ Definition tag (c : case) : N :=
   | Hsh cap tg ps _ _ => 8 + t cap tg ps
   | BatF cap tg ps fl _ => if lookup_err ps fl then 16 else 20 + t cap tg ps
   | HshF cap tg ps fl _ _ _ => if lookup_err ps fl then 17 else 24 + t cap tg ps
+  (* histories: 30 + number of deliveries (max 8); 40 if some lookup fails *)
+  | Hst cap tg ds =>
+      if existsb (fun d => lookup_err (fst (h_delivery d)) (snd (h_delivery d))) ds then 40
+      else 30 + N.min 8 (N.of_nat (List.length ds))
   end.
 
 Definition check_all := check_cases agree judge tag.
